@@ -358,6 +358,7 @@ type lcWallet struct {
 	nextKey     *keychain.KeyDescriptor
 	failFunding bool
 	utxoSeq     uint32
+	fundSeq     uint32
 	fundCalls   int
 	pubCalls    int
 }
@@ -469,8 +470,9 @@ func (w *lcWallet) FundPsbt(_ context.Context, req *walletrpc.FundPsbtRequest) (
 		WitnessUtxo: &wire.TxOut{Value: int64(utxoValue), PkScript: lcP2WKH},
 		PartialSigs: []*psbt.PartialSig{{Signature: []byte{1, 2, 3}}},
 	}
-	switch seq % 3 {
-	case 0:
+	w.fundSeq++
+	switch w.fundSeq % 4 {
+	case 0, 2:
 		// lnd's coin selection picked a nested P2WKH UTXO: the input carries a redeem
 		// script, whose push becomes the signature script (and part of the txid)
 		pin.WitnessUtxo.PkScript = lcNP2WKH
